@@ -109,8 +109,11 @@ pub fn parse_retry_tag(tag: &str) -> Option<(Option<usize>, Option<Duration>)> {
     rest.is_empty().then_some((num, after))
 }
 
-/// Durations of the small alphabet used by the harness: `<int>s`, `<int>ms`, `<int>m`.
+/// Durations of the small alphabet used by the harness: `<int>s`, `<int>ms`, `<int>us`, `<int>m`.
 pub fn parse_dur(s: &str) -> Option<Duration> {
+    if let Some(n) = s.strip_suffix("us") {
+        return n.parse().ok().map(Duration::from_micros);
+    }
     if let Some(n) = s.strip_suffix("ms") {
         return n.parse().ok().map(Duration::from_millis);
     }
